@@ -23,7 +23,7 @@ var (
 	AExt    = []string{"a", " ", "\n", "|", "-", ":", "~", "[^1]", "[^1]:", "- [ ] ", "www.a.bc", "http://a.bc", "a@b.cd", "\""}
 	ATab    = []string{"c", "\t", " ", "\n", ">", "-", "1.", "```", "~~~", "#", "    "}
 	ABytes  = []string{"a", "\n", " ", "*", "\x00", "\x80", "\xc3", "\xe3\x81", "あ", "\r", "\t", "\xff", "\u200b"}
-	ANasty  = []string{"\"", "<", ">", "&", "'", "\\", "a", ";", "#", "&quot;", "&#34;", "\\\"", "\x00", " ", "\xc3", "\xf0"}
+	ANasty  = []string{"\"", "<", ">", "&", "'", "\\", "a", ";", "#", "&quot;", "&#34;", "\\\"", "\x00", " ", "\xc3", "\xf0", "\n"}
 )
 
 // Union returns the de-duplicated union of alphabets, in first-seen order.
